@@ -506,6 +506,18 @@ func genC02(tier string, rng *Rng) {
 		}
 		runC02("json-messages", lines)
 	}
+	// a line that STARTS with a complete JSON value and goes on (two values glued together, a stray bracket,
+	// an ASCII tail): not one JSON value, hence not a line of the grammar - no effect (seed C02-10: a
+	// streaming decoder takes the first value and ignores the rest)
+	for i := 0; i < 60*scale; i++ {
+		a, _ := json.Marshal(&rwp.HWCState{HWCIDs: []uint32{uint32(7 + i%3)}, HWCMode: &rwp.HWCMode{State: 4}})
+		b, _ := json.Marshal([]*rwp.InboundMessage{{Command: &rwp.Command{Reboot: i%2 == 0, SendPanelInfo: true}}, {FlowMessage: 1}})
+		tails := []string{"{\"HWCIDs\":[8]}", "]", "}", ",", " x", "HWC#5=4", "[1]", "null", "\"s\"", "0", " \t", "\r"}
+		t := tails[i%len(tails)]
+		runC02("json-with-tail", []string{string(a) + t})
+		runC02("json-with-tail", []string{string(b) + t, "HWC#1=4"})
+		runC02("json-with-tail", []string{"HWC#2=1", string(a) + string(a), string(b) + string(b)})
+	}
 	runC02("json-null-element", []string{"[null]"})
 	runC02("json-null-element", []string{"[null,{\"FlowMessage\":2},null]"})
 
